@@ -602,3 +602,44 @@ def r15_pixbuf_substitution(ck, P):
                 ck.ok(R, 'pixbuf substitution (0x%x) guarded by equal bits, repeat and offsets' % (int(a[1]) & 0xffffffff))
     if n == 0:
         ck.incomplete(R, 'no substitution of a pixbuf pseudo-format found')
+
+
+def r16_repeat_of_row_matches_padding_source(ck, P, rid='C08-R22'):
+    """T-TAB: the scaled main loops handle the part of a scanline that lies outside the source by compositing a *padding pixel*: the
+    edge pixel of the row for REPEAT_PAD, a constant zero pixel for REPEAT_NONE (a function-local `static const zero[1]`).  The repeat
+    mode a table row demands in its source flags therefore shows in the routine it names: a PAD row's routine never reads a
+    function-local constant as its padding, a NONE row's routine does."""
+    from .. import consts
+    R = ck.rule(rid, 'for every fast-path table row whose source flags demand exactly one of the repeat modes PAD or NONE and whose routine is a scaled main loop (it calls the scanline-bounds helper for padding): the routine reads a function-local constant object (the zero pixel) if and only if the row demands NONE; a PAD row that names a routine built for NONE composites transparent black where the clamped edge pixel belongs', floor=20)
+    C = consts.fast_path_flags()
+    PAD, NONE_ = C['FAST_PATH_PAD_REPEAT'], C['FAST_PATH_NONE_REPEAT']
+    ALL = C['FAST_PATH_NO_PAD_REPEAT'] | C['FAST_PATH_NO_NONE_REPEAT'] | C['FAST_PATH_NO_NORMAL_REPEAT'] | C['FAST_PATH_NO_REFLECT_REPEAT']
+    n = 0
+    for u, g, t in composite_tables(P):
+        for idx, e in enumerate(t):
+            fn = fname(e.get('func'))
+            f = u.functions.get(fn) if fn else None
+            if f is None:
+                continue
+            fl = int(e.get('src_flags') or 0) & ALL
+            mode = 'PAD' if fl == PAD & ALL else 'NONE' if fl == NONE_ & ALL else None
+            if mode is None:
+                continue
+            if not any(isinstance(c.callee, str) and 'pad_repeat_get_scanline_bounds' in c.callee for c in f.calls()):
+                continue
+            if any(isinstance(c.callee, str) and 'bilinear' in c.callee for c in f.calls()):
+                continue            # the bilinear loops keep their zero pixels in a local array that mem2reg dissolves: nearest loops only
+            zero = any(x.op == 'alloca' and x.dv == 'zero' for x in f.insts())      # the bilinear loops keep their zero pixels in a local array
+            for x in f.insts():
+                for a in x.a:
+                    s_ = str(a)
+                    if a and a[0] in ('g', 'ce') and (f.name + '.') in s_:
+                        zero = True
+            n += 1; ck.saw(f)
+            where = '%s[%d]: %s (%s)' % (g['name'], idx, fn, mode)
+            if zero == (mode == 'NONE'):
+                ck.ok(R, where)
+            else:
+                ck.violation(R, fn, 'row %d of %s demands REPEAT_%s' % (idx, g['name'], mode), 'row %d of %s sends sources with REPEAT_%s to %s, which %s: the part of a scanline outside the source is composited with %s instead of %s, and the fast path disagrees with the general path there' % (idx, g['name'], mode, fn, 'pads with a function-local constant (the zero pixel of the NONE loops)' if zero else 'never reads a constant padding pixel (it pads with the edge pixel, as the PAD loops do)', 'transparent black' if zero else 'the edge pixel', 'the edge pixel' if zero else 'transparent black'), '%s table %s' % (u.name, g['name']))
+    if n == 0:
+        raise AnalysisBroken('%s: no PAD / NONE row naming a scaled main loop found' % rid)
